@@ -49,7 +49,7 @@ def gen_lines(rng, build, reps, which='C10'):
             if (which == 'C10' and o in ('eq', 'ct_eq', 'sub', 'sub.inherent')) or (which == 'C11' and o in ('cmp', 'partial_cmp')):
                 for a, b2 in structured_pairs(rng, f, 3 * reps):
                     lines.append('%s %x %x' % (op, a, b2))
-            for rep in range(reps):
+            for rep in range(reps if not (which == 'C11' and o == 'ark.from_str') else max(reps, 44)):
                 if which == 'C10':
                     if o.split('.')[0] in ARITH or o in ('inh.add', 'inh.sub', 'inh.mul', 'add.inherent', 'sub.inherent', 'mul.inherent', 'eq', 'ct_eq'):
                         lines.append('%s %s %s' % (op, F(), F() if rep else '0'))
@@ -86,7 +86,14 @@ def gen_lines(rng, build, reps, which='C10'):
                     elif o.startswith('from_u') or o == 'from_bool' or o == 'ark.from_biguint':
                         bits = {'from_u128': 128, 'from_u64': 64, 'from_u32': 32, 'from_u16': 16, 'from_u8': 8, 'from_bool': 1}.get(o, 400)
                         lines.append('%s %x' % (op, rng.choice([0, 1, 2**bits - 1, rng.bits(bits)])))
-                    elif o == 'ark.from_str': lines.append('%s "%d"' % (op, rng.bits(rng.below(500) + 1)))
+                    elif o == 'ark.from_str':
+                        # decimal strings: lengths around every multiple of 19 (u64 digit batches) and of 9/18, trailing / leading / interior zeros,
+                        # powers of ten, d*10^k, all nines, values around the modulus, the empty string, then random
+                        dec = ['0', '00', '1', '10', '0000000000000000000000000000001', str(m - 1), str(m), str(m + 1), str(2 * m + 7), '9' * 19, '9' * 20, '9' * 38, '9' * 39, '']
+                        dec += ['1' + '0' * k for k in (9, 17, 18, 19, 20, 21, 37, 38, 39, 40, 56, 57, 58, 75, 76, 77, 95)]
+                        dec += [str(d_) + '0' * k for d_, k in ((25, 21), (7, 19), (123456789, 30), (5, 76), (99, 38))]
+                        dec += ['1' + '0' * 18 + '5' + '0' * 19, '12345678901234567890' * 3 + '0' * 7]
+                        lines.append('%s "%s"' % (op, dec[rep] if rep < len(dec) else str(rng.bits(rng.below(500) + 1))))
     return lines
 
 VO = ['Props/C10.vo']
